@@ -736,3 +736,308 @@ func rootOf(v ssa.Value) ssa.Value {
 		return v
 	}
 }
+
+// ---------------------------------------------------------------------------
+// Rule-writing helpers
+
+// H bundles a report and program for concise rule code.
+type H struct {
+	r *Report
+	p *Program
+}
+
+// fn resolves a function or records an unresolved anchor.
+func (h H) fn(rule, rel, name string) *ssa.Function {
+	f := h.p.Func(rel, name)
+	if f == nil || len(f.Blocks) == 0 {
+		h.r.Unresolve(rule, "function "+rel+"."+name+" not found (renamed or removed): rule cannot be evaluated")
+		return nil
+	}
+	return f
+}
+
+// nilCmp decomposes `x == nil` / `x != nil`: returns x and whether the
+// condition being TRUE means x is nil.
+func nilCmp(v ssa.Value) (x ssa.Value, nilWhenTrue bool, ok bool) {
+	b, isB := v.(*ssa.BinOp)
+	if !isB || (b.Op != token.EQL && b.Op != token.NEQ) {
+		return nil, false, false
+	}
+	isNil := func(v ssa.Value) bool {
+		c, ok := v.(*ssa.Const)
+		return ok && c.Value == nil
+	}
+	switch {
+	case isNil(b.Y):
+		x = b.X
+	case isNil(b.X):
+		x = b.Y
+	default:
+		return nil, false, false
+	}
+	return x, b.Op == token.EQL, true
+}
+
+// nilEdges returns the edges on which a value satisfying pred is known to be
+// nil (isNil=true) or non-nil (isNil=false).
+func nilEdges(fn *ssa.Function, isNil bool, pred func(ssa.Value) bool) map[edge]bool {
+	out := map[edge]bool{}
+	for _, i := range ifs(fn) {
+		v, flip := stripNot(i.Cond)
+		x, nilWhenTrue, ok := nilCmp(v)
+		if !ok || !pred(x) {
+			continue
+		}
+		// condition (after stripping nots) true ⇒ x nil iff nilWhenTrue
+		takeTrue := nilWhenTrue == isNil
+		if flip {
+			takeTrue = !takeTrue
+		}
+		out[condEdge{i, takeTrue}.edge()] = true
+	}
+	return out
+}
+
+// intCmp decomposes an integer comparison against a constant into the
+// canonical form "x > c" (strict lower bound) or "x < c" (strict upper
+// bound) for the TRUE outcome.  Returns x, kind ("gt","lt","eq","ne"), c.
+func intCmp(v ssa.Value) (x ssa.Value, kind string, c int64, ok bool) {
+	b, isB := v.(*ssa.BinOp)
+	if !isB {
+		return
+	}
+	op := b.Op
+	var cv int64
+	var okc bool
+	if cv, okc = constInt(b.Y); okc {
+		x = b.X
+	} else if cv, okc = constInt(b.X); okc {
+		x = b.Y
+		// mirror
+		switch op {
+		case token.LSS:
+			op = token.GTR
+		case token.GTR:
+			op = token.LSS
+		case token.LEQ:
+			op = token.GEQ
+		case token.GEQ:
+			op = token.LEQ
+		}
+	} else {
+		return nil, "", 0, false
+	}
+	switch op {
+	case token.GTR:
+		return x, "gt", cv, true
+	case token.GEQ:
+		return x, "gt", cv - 1, true
+	case token.LSS:
+		return x, "lt", cv, true
+	case token.LEQ:
+		return x, "lt", cv + 1, true
+	case token.EQL:
+		return x, "eq", cv, true
+	case token.NEQ:
+		return x, "ne", cv, true
+	}
+	return nil, "", 0, false
+}
+
+// strCmp decomposes `x == "lit"` / `x != "lit"`.
+func strCmp(v ssa.Value) (x ssa.Value, eq bool, lit string, ok bool) {
+	b, isB := v.(*ssa.BinOp)
+	if !isB || (b.Op != token.EQL && b.Op != token.NEQ) {
+		return
+	}
+	if s, okc := constString(b.Y); okc {
+		return b.X, b.Op == token.EQL, s, true
+	}
+	if s, okc := constString(b.X); okc {
+		return b.Y, b.Op == token.EQL, s, true
+	}
+	return
+}
+
+// allFlowsThrough: on every backward data path from v to a leaf, a value
+// satisfying pred is crossed.  Leaves that are constants are accepted when
+// constOK.  Follows the same operators as derives (through call arguments
+// for calls not matching pred).
+func allFlowsThrough(v ssa.Value, pred func(ssa.Value) bool, constOK bool) bool {
+	memo := map[ssa.Value]int{} // 1 = in progress/true-assumed, 2 = true, 3 = false
+	var walk func(v ssa.Value, d int) bool
+	walk = func(v ssa.Value, d int) bool {
+		if v == nil {
+			return false
+		}
+		if pred(v) {
+			return true
+		}
+		switch memo[v] {
+		case 1, 2:
+			return true // cycles (loop phis) are coinductively fine
+		case 3:
+			return false
+		}
+		if d > 50 {
+			return false
+		}
+		memo[v] = 1
+		res := false
+		switch t := v.(type) {
+		case *ssa.Const:
+			res = constOK
+		case *ssa.Phi:
+			res = true
+			for _, e := range t.Edges {
+				if !walk(e, d+1) {
+					res = false
+					break
+				}
+			}
+		case *ssa.Extract:
+			res = walk(t.Tuple, d+1)
+		case *ssa.Call:
+			// result derived from all arguments: require every string/slice-typed arg to be normalised
+			res = len(t.Call.Args) > 0
+			for _, a := range t.Call.Args {
+				if _, isC := a.(*ssa.Const); isC {
+					continue
+				}
+				if !walk(a, d+1) {
+					res = false
+					break
+				}
+			}
+		case *ssa.Slice:
+			res = walk(t.X, d+1)
+		case *ssa.Convert:
+			res = walk(t.X, d+1)
+		case *ssa.ChangeType:
+			res = walk(t.X, d+1)
+		case *ssa.BinOp:
+			res = walk(t.X, d+1) && walk(t.Y, d+1)
+		case *ssa.UnOp:
+			if t.Op == token.MUL {
+				if a, ok := t.X.(*ssa.Alloc); ok {
+					st := storesTo(a)
+					res = len(st) > 0
+					for _, s := range st {
+						if !walk(s, d+1) {
+							res = false
+							break
+						}
+					}
+				} else if ia, ok := t.X.(*ssa.IndexAddr); ok {
+					res = walk(ia.X, d+1)
+				}
+			} else {
+				res = walk(t.X, d+1)
+			}
+		case *ssa.Index:
+			res = walk(t.X, d+1)
+		case *ssa.IndexAddr:
+			res = walk(t.X, d+1)
+		}
+		if res {
+			memo[v] = 2
+		} else {
+			memo[v] = 3
+		}
+		return res
+	}
+	return walk(v, 0)
+}
+
+// returnValues returns, per result index, the values returned at each Return.
+func returnValues(fn *ssa.Function, idx int) []ssa.Value {
+	var out []ssa.Value
+	for _, e := range exitsOf(fn) {
+		if ret, ok := e.(*ssa.Return); ok && idx < len(ret.Results) {
+			out = append(out, ret.Results[idx])
+		}
+	}
+	return out
+}
+
+// isResultOf: v is call/extract #idx of a call to one of names.
+func isResultOf(v ssa.Value, idx int, names ...string) bool {
+	switch t := v.(type) {
+	case *ssa.Call:
+		return idx <= 0 && callNamed(names...)(t)
+	case *ssa.Extract:
+		if c, ok := t.Tuple.(*ssa.Call); ok {
+			return (idx < 0 || t.Index == idx) && callNamed(names...)(c)
+		}
+	}
+	return false
+}
+
+// inLoop reports whether block b is in a natural loop of fn (can reach itself).
+func inLoop(b *ssa.BasicBlock) bool {
+	seen := map[*ssa.BasicBlock]bool{}
+	var st []*ssa.BasicBlock
+	st = append(st, b.Succs...)
+	for len(st) > 0 {
+		x := st[len(st)-1]
+		st = st[:len(st)-1]
+		if x == b {
+			return true
+		}
+		if seen[x] {
+			continue
+		}
+		seen[x] = true
+		st = append(st, x.Succs...)
+	}
+	return false
+}
+
+// blockReaches: can `from` reach `to` along CFG edges (from != to requires ≥1 edge; from==to requires a cycle).
+func blockReaches(from, to *ssa.BasicBlock) bool {
+	seen := map[*ssa.BasicBlock]bool{}
+	st := append([]*ssa.BasicBlock{}, from.Succs...)
+	for len(st) > 0 {
+		x := st[len(st)-1]
+		st = st[:len(st)-1]
+		if x == to {
+			return true
+		}
+		if seen[x] {
+			continue
+		}
+		seen[x] = true
+		st = append(st, x.Succs...)
+	}
+	return false
+}
+
+// unitStep: v is an integer induction variable advanced by a constant step
+// each iteration: v = φ(init, v') with v' = v + c, or v' itself.  Returns c.
+func unitStep(v ssa.Value) (int64, bool) {
+	var phi *ssa.Phi
+	switch t := v.(type) {
+	case *ssa.Phi:
+		phi = t
+	case *ssa.BinOp:
+		if t.Op == token.ADD || t.Op == token.SUB {
+			if p, ok := t.X.(*ssa.Phi); ok {
+				phi = p
+			}
+		}
+	}
+	if phi == nil {
+		return 0, false
+	}
+	for _, e := range phi.Edges {
+		if b, ok := e.(*ssa.BinOp); ok && (b.Op == token.ADD || b.Op == token.SUB) && b.X == phi {
+			if c, ok := constInt(b.Y); ok {
+				if b.Op == token.SUB {
+					c = -c
+				}
+				return c, true
+			}
+		}
+	}
+	return 0, false
+}
